@@ -332,33 +332,43 @@ def check_flows(chk, tmp, quick):
              ("flowjax", {"bijection_type": "RationalQuadraticSpline", "bijection_kwargs": {"knots": 4, "interval": 4.0}, "nn_width": 8, "flow_layers": 2})]
     if quick:
         specs = specs[:3] + specs[3:]
+    from aspire.transforms import FlowTransform
+
     for backend, opts in specs:
         case = {"level": "flow", "backend": backend, "options": opts}
         chk.count(f"flows:{backend}")
         chk.case(case, json.dumps(case))
         try:
             F, xp = get_flow_wrapper(backend)
+            tr = FlowTransform(parameters=["zeta", "alpha"], prior_bounds={"zeta": [-4.0, 5.0], "alpha": [-3.0, 3.5]}, bounded_to_unbounded=True,
+                               bounded_transform="logit", affine_transform=True, xp=xp, eps=1e-6)
             if backend == "zuko":
-                f = F(dims=2, seed=1, device="cpu", **opts)
+                f = F(dims=2, seed=1, device="cpu", data_transform=tr, **opts)
                 f.fit(data, n_epochs=1)
             else:
                 import jax
 
                 ns.enable_x64()
-                f = F(dims=2, key=jax.random.key(1), **opts)
+                f = F(dims=2, key=jax.random.key(1), data_transform=tr, **opts)
                 f.fit(data, max_epochs=1)
             with torch.no_grad():
                 ref = ns.to_np(f.log_prob(data[:10]))
             p = os.path.join(tmp, f"flow_{backend}_{len(opts)}_{abs(hash(json.dumps(opts, sort_keys=True))) % 10**6}.h5")
-            with h5py.File(p, "w") as h:
-                f.save(h, "flow")
-            with h5py.File(p, "r") as h:
-                g = F.load(h, "flow")
-            os.remove(p)
-            with torch.no_grad():
-                got = ns.to_np(g.log_prob(data[:10]))
-            if not np.allclose(ref, got, rtol=1e-5, atol=1e-5):
-                chk.fail("a saved flow reproduces the same density", case, f"max |d log_prob| = {np.max(np.abs(ref - got)):.3g}", {"level": "flow", "clause": "equal", "backend": backend})
+            # the same object is saved more than once (fit with a checkpoint path, then every sample_posterior re-writes the proposal):
+            # EVERY file must reload to the same density
+            for nth in (1, 2, 3):
+                with h5py.File(p, "w") as h:
+                    f.save(h, "flow")
+                with h5py.File(p, "r") as h:
+                    g = F.load(h, "flow")
+                os.remove(p)
+                with torch.no_grad():
+                    got = ns.to_np(g.log_prob(data[:10]))
+                if not np.allclose(ref, got, rtol=1e-5, atol=1e-5):
+                    chk.fail("a saved flow reproduces the same density", dict(case, save_number=nth),
+                             f"save number {nth} of the same object: max |d log_prob| = {np.max(np.abs(ref - got)):.3g}",
+                             {"level": "flow", "clause": "equal", "backend": backend, "save_number": nth})
+                    break
         except Exception as e:   # noqa
             chk.fail("a saved flow reloads", case, repr(e)[:200], {"level": "flow", "clause": "raise", "backend": backend, "custom_options": bool(opts), "exc": type(e).__name__})
 
